@@ -295,6 +295,14 @@ def mqtt_run(times, no_limit=()):
 def gen_arrivals(rng, pattern, n):
     G = 1 / 64
     out = []
+    if pattern in ("idle-then-flood", "light-then-flood"):
+        # allowance banked over a long silence / a long stretch well below the limit must stay capped at ONE bucket: then a flood of more than a
+        # bucket's worth of large frames
+        if pattern == "idle-then-flood":
+            out.append((rng.choice([600, 1800]), 1))
+        else:
+            out += [(10, 1)] * rng.randint(60, 120)
+        return out + [(0, 48)] * max(n, 40)
     for _ in range(n):
         if pattern == "burst":
             gap = rng.choice([0, 0, 0, G, 30, 120])
@@ -372,7 +380,7 @@ def run(ctx: Ctx) -> None:
                         "the virtual clock lives on a 2^-20 s grid, on which the implementation's binary64 level arithmetic is exact (levels are multiples of 2^-20 bit below 2^53)"]
     built = ctx.build("C11", THEOREMS)
 
-    pats = ["flood-small", "flood-large", "burst", "steady-above", "steady-below", "idle-gaps", "mixed"]
+    pats = ["flood-small", "flood-large", "burst", "steady-above", "steady-below", "idle-gaps", "mixed", "idle-then-flood", "light-then-flood"]
     n_seq = 42 if thorough else 14
     coq_adm, impl_adm, coq_g, impl_ok = [], [], [], []
     for i in range(n_seq):
